@@ -264,10 +264,103 @@ def stored_outlines(built, fmt):
     return out
 
 
+def gen_decoy(case):
+    """Two related classes in one font: a plain polygon X and rings Y, Y' that have X's contour as their outer contour
+    (different holes).  Copies are pure integer translations (identical relative path data, so no normalisation
+    mechanism of F6 can apply): every class must be stored exactly once, whatever order the shapes arrive in."""
+    r = common.rng(ID, "decoy", case["seed"], case["i"])
+    fmt = r.choice(FORMATS)
+    vb = r.choice([64, 100, 128, 256])
+    scale = r.choice([4, 8, 10])
+    size = max(6, round(vb * r.uniform(0.08, 0.14)))
+    X = proto(r, "polygon", size, True)
+    outer = [pts[0] for c, pts in X if c != "Z"]
+
+    def ring(k):
+        inner = [(float(round(x * k)), float(round(y * k))) for x, y in outer]
+        return X + [("M", [inner[-1]])] + [("L", [q]) for q in reversed(inner[:-1])] + [("Z", [])]
+
+    classes = {"X": X, "Y": ring(0.5), "Y2": ring(0.3)}
+    if to_d(classes["Y"], 0) == to_d(classes["Y2"], 0):
+        del classes["Y2"]
+    nd = 0
+    # X, then a relative of X, then X again - and the same with the roles swapped
+    seq = r.choice([["X", "Y", "X"], ["Y", "X", "Y"], ["Y", "Y2", "Y"], ["X", "Y", "Y2", "X", "Y"]])
+    if r.random() < 0.35:
+        # a near-duplicate: one vertex moved by more than the reuse tolerance, yet by so little that the (coarser)
+        # normal form is the same - not a copy of X, but it lands on X's cache key
+        vb = r.choice([256, 1000])
+        size = round(vb * 0.2)
+        X = proto(r, "polygon", size, True)
+        tol_ = 0.1
+        j = r.randrange(2, len(X) - 1)
+        Xn = [(c_, [(p_[0] + (1.3 * tol_ if i_ == j else 0.0), p_[1]) for p_ in pts_]) for i_, (c_, pts_) in enumerate(X)]
+        classes = {"X": X, "Xn": Xn}
+        seq = r.choice([["X", "Xn", "X"], ["Xn", "X", "Xn"], ["X", "Xn", "Xn", "X"]])
+        nd = 2
+    seq = [k for k in seq if k in classes] + [r.choice(list(classes)) for _ in range(r.randint(0, 3))]
+    nglyphs = r.randint(1, 3)
+    per = [[] for _ in range(nglyphs)]
+    for n, k in enumerate(seq):
+        per[min(nglyphs - 1, n * nglyphs // len(seq))].append(k)
+    glyphs, labels = [], []
+    for g in range(nglyphs):
+        paths = ""
+        for k in per[g]:
+            iso = (None, 0, float(r.randint(int(vb * 0.3), int(vb * 0.7))), float(r.randint(int(vb * 0.3), int(vb * 0.7))))
+            paths += f'<path d="{to_d(place(classes[k], iso), nd)}" fill="#{r.randint(0, 0xFFFFFF):06x}"/>'
+            labels.append(k)
+        glyphs.append(f'<svg xmlns="http://www.w3.org/2000/svg" viewBox="0 0 {vb} {vb}"><defs/>{paths}</svg>')
+    glyphs = [g for g in glyphs if "<path" in g]
+    cfg = {"color_format": fmt, "upem": vb * scale, "ascender": vb * scale, "descender": 0, "width": vb * scale, "reuse_tolerance": 0.1 if nd else r.choice([0.1, 0.1, 0.2]), "clip_to_viewbox": False, "keep_glyph_names": True}
+    sources = [{"svg": s_, "codepoints": [0xE000 + i]} for i, s_ in enumerate(glyphs)]
+    return sources, cfg, labels
+
+
+def run_decoy(case):
+    from vf.drive import inproc
+    from vf.hooks import contracts
+
+    sources, cfg, labels = gen_decoy(case)
+    fmt = cfg["color_format"]
+    res = {"counters": {}, "violations": [], "tags": [fmt, "related-classes"]}
+    c = res["counters"]
+    contracts.install()
+    contracts.reset()
+    try:
+        built = inproc.build(sources, cfg)
+    except Exception as e:
+        res["violations"].append({"what": f"build raised {type(e).__name__}: {str(e)[:300]}", "trace": traceback.format_exc()[-1200:], "config": cfg})
+        return res
+    flat = [o for g in stored_outlines(built, fmt) for o in g]
+    if len(flat) != len(labels):
+        res["violations"].append({"what": f"{len(flat)} layers for {len(labels)} shapes", "config": cfg})
+        return res
+    c["related_class_fonts"] = 1
+    c["related_class_copies"] = len(labels)
+    by_class = {}
+    for k, oid in zip(labels, flat):
+        by_class.setdefault(k, []).append(oid)
+    for k, oids in sorted(by_class.items()):
+        if len(set(oids)) > 1:
+            res["violations"].append({"what": f"{len(oids)} translated copies of one shape (class {k}) are stored as {len(set(oids))} outlines in a font that also holds a shape sharing its outer contour", "labels": labels, "outlines": flat, "config": cfg, "sources": [s_["svg"] for s_ in sources]})
+    owners = {}
+    for k, oid in zip(labels, flat):
+        owners.setdefault(oid, set()).add(k)
+    for oid, ks in owners.items():
+        if len(ks) > 1:
+            res["violations"].append({"what": f"shapes of different classes {sorted(ks)} are drawn from one outline {oid}", "labels": labels, "outlines": flat, "config": cfg})
+    res["nontrivial"] = len(labels) >= 3
+    res["key"] = common.sha([sources, cfg])
+    return res
+
+
 def run_case(case):
     from vf.drive import inproc
     from vf.hooks import contracts
 
+    if case["i"] % 12 == 7:
+        return run_decoy(case)
     sources, cfg, meta = gen_case(case)
     fmt = cfg["color_format"]
     tier = "exact" if meta["exact"] else "arbitrary"
@@ -376,7 +469,7 @@ def run_case(case):
 def finish(agg):
     c = agg["counters"]
     inc = []
-    for k in ("exact.copies", "arbitrary.copies", "hits", "control_builds"):
+    for k in ("exact.copies", "arbitrary.copies", "hits", "control_builds", "related_class_copies"):
         if c.get(k, 0) == 0:
             inc.append(f"deciding monitor/branch never reached: {k}")
     for f in set(FORMATS):
